@@ -364,6 +364,10 @@ func (d *stringDecoder) decodeByte(buf []byte, cursor int64) ([]byte, int64, err
 					if escaped > 0 {
 						literal = literal[:unescapeString(literal)]
 					}
+					if !utf8.Valid(literal) {
+						// like encoding/json ( and the stream decoder ): invalid UTF-8 becomes U+FFFD
+						literal = replaceInvalidUTF8(literal)
+					}
 					cursor++
 					return literal, cursor, nil
 				case nul:
@@ -459,4 +463,20 @@ func unescapeString(buf []byte) int {
 		}
 	}
 	return int(uintptr(dst) - uintptr(p))
+}
+
+// replaceInvalidUTF8 returns a copy of b in which every byte that is not part
+// of a valid UTF-8 sequence is replaced by U+FFFD.
+func replaceInvalidUTF8(b []byte) []byte {
+	out := make([]byte, 0, len(b)+2*len(runeErrBytes))
+	for len(b) > 0 {
+		r, size := utf8.DecodeRune(b)
+		if r == utf8.RuneError && size == 1 {
+			out = append(out, runeErrBytes...)
+		} else {
+			out = append(out, b[:size]...)
+		}
+		b = b[size:]
+	}
+	return out
 }
